@@ -22,6 +22,6 @@ CONSTANTS
   MaxQueued <- Many
   Truncation = TRUE
 CONSTRAINT Progress
-INVARIANTS InOrder FramingInv BufferInv PongsOk WritesOk OutContig DiscOk
+INVARIANTS T_InOrder T_FramingInv T_BufferInv T_PongsOk T_WritesOk T_OutContig T_DiscOk
 POSTCONDITION Accepted
 CHECK_DEADLOCK FALSE
